@@ -302,6 +302,56 @@ fn run_dp(path: &str, which: &str) -> String {
             blocks.len(), never, twice, badlay, hd(), ed())
 }
 
+// ------------------------------------------------------------------------------------------------
+// cowdp <op> <which>: copy-on-write on a SHARED handle whose other owner goes away inside `T::clone`, so that the
+// release of the old allocation at the end of make_mut / make_unique is the LAST one and runs the old value's destructor —
+// which panics (which = el) or not (which = none).  Afterwards the handle must own the live copy: readable, count 1,
+// and both blocks go back to the allocator exactly once.
+thread_local! { static OTHER: std::cell::RefCell<Option<Arc<Pc>>> = const { std::cell::RefCell::new(None) }; }
+struct Pc(u32, u64);
+impl Clone for Pc {
+    fn clone(&self) -> Self { let o = OTHER.with(|c| c.borrow_mut().take()); drop(o); Pc(self.0 + 100, self.1) }
+}
+impl Drop for Pc {
+    fn drop(&mut self) {
+        bump::<1>();
+        if self.0 < 100 && PANIC_ROLE.with(|c| c.get()) == 1 { PANIC_ROLE.with(|c| c.set(-1)); panic!("scripted destructor panic"); }
+    }
+}
+fn run_cowdp(op: &str, which: &str) -> String {
+    use harness::{set_recording, take_events, Ev};
+    reset();
+    take_events();
+    set_recording(true);
+    let mut a = Arc::new(Pc(7, 7));
+    OTHER.with(|c| *c.borrow_mut() = Some(a.clone()));
+    PANIC_ROLE.with(|c| c.set(if which == "el" { 1 } else { -1 }));
+    let r = catch_unwind(AssertUnwindSafe(|| match op {
+        "make_mut" => { Arc::make_mut(&mut a).1 = 8; }
+        "make_unique" => { Arc::make_unique(&mut a).1 = 8; }
+        _ => {}
+    }));
+    PANIC_ROLE.with(|c| c.set(-1));
+    // the handle after the (possibly unwound) call
+    let (v0, cnt) = (a.0, Arc::count(&a));
+    drop(a);
+    OTHER.with(|c| c.borrow_mut().take());
+    set_recording(false);
+    let evs = take_events();
+    let mut blocks: Vec<(usize, i32)> = Vec::new();
+    let bad = 0;
+    for e in &evs {
+        match e {
+            Ev::Alloc(i, _, al) if *al >= 8 => blocks.push((*i, 0)),
+            Ev::Dealloc(i, _, _) => { for b in blocks.iter_mut() { if b.0 == *i { b.1 += 1; } } }
+            Ev::DoubleFree(i, _, _) => { for b in blocks.iter_mut() { if b.0 == *i { b.1 += 1; } } }
+            _ => {}
+        }
+    }
+    format!("st={} val={} cnt={} blocks={} never_freed={} freed_twice={} badread={} edrop={}", if r.is_ok() { "ok" } else { "panic" }, v0, cnt,
+            blocks.len(), blocks.iter().filter(|b| b.1 == 0).count(), blocks.iter().filter(|b| b.1 > 1).count(), bad, ed())
+}
+
 fn main() {
     harness::quiet_panics();
     let stdin = std::io::stdin();
@@ -317,6 +367,7 @@ fn main() {
             "sl" if f.len() == 5 => with_t!(f[1], run_sl, p(2), p(3) == 1, p(4)),
             "un" if f.len() == 3 => with_t!(f[1], run_un, p(2) == 1),
             "dp" if f.len() == 3 => run_dp(f[1], f[2]),
+            "cowdp" if f.len() == 3 => run_cowdp(f[1], f[2]),
             "wr" if f.len() == 4 => { let n: usize = f[3].parse().unwrap_or(0); with_t!(f[1], run_wr, f[2], n) }
             _ => "st=badline".to_string(),
         };
